@@ -38,6 +38,10 @@ type c11Workload struct {
 	Files  map[string]string `json:"files"`
 	Config string            `json:"config"`
 	Online bool              `json:"online"`
+	Paths  []string          `json:"paths,omitempty"` // arguments of `pint lint` (default: rules)
+	// BinaryOnly: not replayed in process (oracle B feeds Summary.Report itself and so bypasses the line-range repair
+	// that the scan workers of the binary apply)
+	BinaryOnly bool `json:"binary_only,omitempty"`
 }
 
 type c11Case struct {
@@ -132,6 +136,36 @@ func c11Workloads(c *core.Ctx, srvURL string) []c11Workload {
 	for i := 0; i < nColl; i++ {
 		ws = append(ws, c11Workload{Name: fmt.Sprintf("collisions%d", i), Files: c11CollisionFiles(c.Rand("c11coll", i)), Config: c11CollisionConfig})
 	}
+	// the same files reached under several spellings of their path (every spelling is discovered on its own, the
+	// reports of the copies tie on everything but the spelling)
+	ws = append(ws, c11Workload{Name: "collisions-same-file-twice", Files: c11CollisionFiles(c.Rand("c11coll", 100)), Config: c11CollisionConfig,
+		Paths: []string{"rules", "./rules/f0.yml", "rules/../rules/f1.yml", "rules/./f2.yml", "rules/f0.yml"}})
+	// files with lone CR line breaks (a line break for YAML, not for pint: key and value positions drift apart, which
+	// is where line ranges get repaired on the way from the workers to the summary) and templates in labels
+	crFiles := map[string]string{}
+	{
+		r := c.Rand("c11cr", 0)
+		for n, d := range c11CollisionFiles(c.Rand("c11coll", 101)) {
+			d = strings.ReplaceAll(d, "    labels:\n      team: \"a b\"\n", "    labels:\n      team: \"a b\"\n      val: '{{ .Value|humanizeDuration }}'\n      v2: 'Some {{$value}} value'\n")
+			b := []byte(d)
+			// turn the line break after the first line of some rules into a lone CR
+			var ends []int
+			lineStart := 0
+			for i := range b {
+				if b[i] == '\n' {
+					if strings.HasPrefix(strings.TrimSpace(string(b[lineStart:i])), "- alert:") {
+						ends = append(ends, i)
+					}
+					lineStart = i + 1
+				}
+			}
+			for k := 0; k < 6 && len(ends) > 0; k++ {
+				b[ends[r.Intn(len(ends))]] = '\r'
+			}
+			crFiles[n] = string(b)
+		}
+	}
+	ws = append(ws, c11Workload{Name: "collisions-lone-cr", Files: crFiles, Config: c11CollisionConfig, BinaryOnly: true})
 	// online scenario: promapi's cache, key locks and worker pool under contention
 	ws = append(ws, c11Workload{Name: "scenario-online", Files: scenarioRules(srvURL), Config: scenarioConfig(srvURL, 0), Online: true})
 	ws = append(ws, c11Workload{Name: "scenario-offline", Files: scenarioRules(srvURL), Config: scenarioConfig("", 3)})
@@ -179,8 +213,12 @@ func c11Run(c *core.Ctx, w c11Workload, cs c11Case, dir string) c11RunOut {
 	}
 	global = append(global, "--workers", fmt.Sprint(cs.Workers))
 	out := c11RunOut{}
+	paths := w.Paths
+	if len(paths) == 0 {
+		paths = []string{"rules"}
+	}
 	res := RunLintIn(c, dir, nil, LintOpts{
-		Config: w.Config, Global: global, WantJSON: true, WantDump: true, Paths: []string{"rules"}, Race: true,
+		Config: w.Config, Global: global, WantJSON: true, WantDump: true, Paths: paths, Race: true,
 		Env:     []string{fmt.Sprintf("GOMAXPROCS=%d", cs.GoMaxProcs), fmt.Sprintf("PINT_VERIF_JITTER=%d", cs.Jitter), "GORACE=halt_on_error=0"},
 		Timeout: 180 * time.Second, Args: []string{"--fail-on", "bug"},
 	})
@@ -318,6 +356,9 @@ func runC11(c *core.Ctx) int {
 	// ---------- Oracle B: all job-order-preserving interleavings of the report stream, in process ----------
 	nPerm := c.N(300, 6000)
 	for wi, w := range ws {
+		if w.BinaryOnly {
+			continue
+		}
 		if w.Online {
 			continue
 		}
@@ -397,7 +438,11 @@ func c11Permutations(c *core.Ctx, w c11Workload, nPerm int, r *rand.Rand) (viol 
 	}
 	cfg.DisableOnlineChecks()
 	schema := parser.PrometheusSchema
-	finder := discovery.NewGlobFinder([]string{"rules"}, git.NewPathFilter(config.MustCompileRegexes(cfg.Parser.Include...), config.MustCompileRegexes(cfg.Parser.Exclude...), config.MustCompileRegexes(cfg.Parser.Relaxed...)), schema, model.UTF8Validation, cfg.Owners.CompileAllowed())
+	globPaths := w.Paths
+	if len(globPaths) == 0 {
+		globPaths = []string{"rules"}
+	}
+	finder := discovery.NewGlobFinder(globPaths, git.NewPathFilter(config.MustCompileRegexes(cfg.Parser.Include...), config.MustCompileRegexes(cfg.Parser.Exclude...), config.MustCompileRegexes(cfg.Parser.Relaxed...)), schema, model.UTF8Validation, cfg.Owners.CompileAllowed())
 	entries, err := finder.Find()
 	if err != nil {
 		return nil, 0, 0
